@@ -28,6 +28,9 @@ type atom struct {
 
 type astrv struct{ atoms []atom }
 
+// alo: some integer that is at least min (the length of a string containing labels of unknown, non-zero length).
+type alo struct{ min int64 }
+
 // apos: a position inside an abstract string that has labels of unknown length before it: the start of atom ai,
 // plus off bytes into that (literal) atom, plus delta.  Always >= 0.
 type apos struct {
@@ -416,6 +419,10 @@ func (e *absEnv) strCall(name string, args []aval) (aval, bool) {
 		if n := len(a); n > 0 && a[n-1].sym == "" {
 			if i := strings.LastIndex(a[n-1].lit, ":"); i >= 0 && !strings.Contains(renderAtoms(a[:n-1])+a[n-1].lit[:i], ":") {
 				host := append(append([]atom{}, a[:n-1]...), atom{lit: a[n-1].lit[:i]})
+				if hn := len(host); hn >= 2 && host[0].sym == "" && strings.HasPrefix(host[0].lit, "[") && host[hn-1].sym == "" && strings.HasSuffix(host[hn-1].lit, "]") {
+					host[0].lit = host[0].lit[1:]
+					host[hn-1].lit = strings.TrimSuffix(host[hn-1].lit, "]")
+				}
 				return atuple{mkStr(host), astr(a[n-1].lit[i+1:]), anil{}}, true
 			}
 		}
@@ -426,6 +433,35 @@ func (e *absEnv) strCall(name string, args []aval) (aval, bool) {
 
 // strBinop handles concatenation and comparison of abstract strings (and of single bytes taken from them).
 func strBinop(op token.Token, a, b aval) (aval, bool) {
+	if x, ok := a.(alo); ok {
+		if c, ok := b.(aint); ok {
+			switch {
+			case int64(c) < x.min:
+				switch op {
+				case token.GTR, token.GEQ, token.NEQ:
+					return abool(true), true
+				case token.LSS, token.LEQ, token.EQL:
+					return abool(false), true
+				}
+			case int64(c) == x.min:
+				switch op {
+				case token.GEQ:
+					return abool(true), true
+				case token.LSS:
+					return abool(false), true
+				}
+			}
+		}
+	}
+	if x, ok := b.(alo); ok {
+		if c, ok := a.(aint); ok {
+			// c op x  ==  x op' c
+			mirror := map[token.Token]token.Token{token.LSS: token.GTR, token.GTR: token.LSS, token.LEQ: token.GEQ, token.GEQ: token.LEQ, token.EQL: token.EQL, token.NEQ: token.NEQ}
+			if m, ok := mirror[op]; ok {
+				return strBinop(m, x, c)
+			}
+		}
+	}
 	if p, ok := a.(apos); ok {
 		if c, ok := b.(aint); ok {
 			switch op {
@@ -853,4 +889,180 @@ func describeStrVal(v aval) (string, bool) {
 		return fmt.Sprintf("map(%d)", len(t.m.vals)), true
 	}
 	return "", false
+}
+
+// stdCall models a few standard-library helpers that take function values or operate on modelled containers.
+func (e *absEnv) stdCall(fr *absFrame, name string, args []aval, depth int) (aval, bool) {
+	base := name
+	if i := strings.Index(base, "["); i >= 0 {
+		base = base[:i] // generic instantiation
+	}
+	callF := func(f aval, a ...aval) aval {
+		fv, ok := f.(afunc)
+		if !ok {
+			return aunk{"call of " + describeAval(f)}
+		}
+		if e.ext != nil {
+			if v, ok := e.ext(fv.fn.String(), a); ok {
+				return v
+			}
+		}
+		if len(fv.fn.Blocks) == 0 {
+			return aunk{"call of " + fv.fn.String()}
+		}
+		return e.call(fv.fn, a, fv.free, depth+1)
+	}
+	elems := func(v aval) ([]aval, bool) {
+		switch t := v.(type) {
+		case avals:
+			var out []aval
+			for _, c := range t.cells {
+				out = append(out, c.f[""])
+			}
+			return out, true
+		case aslice:
+			var out []aval
+			for _, o := range t.elems {
+				out = append(out, aptr{o, ""})
+			}
+			return out, true
+		case anil:
+			return nil, true
+		}
+		return nil, false
+	}
+	switch base {
+	case "slices.IndexFunc", "slices.ContainsFunc":
+		es, ok := elems(args[0])
+		if !ok {
+			return nil, false
+		}
+		for i, x := range es {
+			if e.truth(callF(args[1], x), base+" predicate") {
+				if base == "slices.ContainsFunc" {
+					return abool(true), true
+				}
+				return aint(i), true
+			}
+		}
+		if base == "slices.ContainsFunc" {
+			return abool(false), true
+		}
+		return aint(-1), true
+	case "slices.Index", "slices.Contains":
+		es, ok := elems(args[0])
+		if !ok {
+			return nil, false
+		}
+		for i, x := range es {
+			eq, isB := e.binop(token.EQL, x, args[1]).(abool)
+			if !isB {
+				return aunk{base + " over incomparable values"}, true
+			}
+			if eq {
+				if base == "slices.Contains" {
+					return abool(true), true
+				}
+				return aint(i), true
+			}
+		}
+		if base == "slices.Contains" {
+			return abool(false), true
+		}
+		return aint(-1), true
+	case "cmp.Or":
+		es, ok := elems(args[0])
+		if !ok {
+			return nil, false
+		}
+		for _, x := range es {
+			switch v := x.(type) {
+			case aint:
+				if v != 0 {
+					return x, true
+				}
+			case astr:
+				if v != "" {
+					return x, true
+				}
+			case asym, astrv, aptr:
+				return x, true
+			case anil:
+			default:
+				return aunk{"cmp.Or over " + describeAval(x)}, true
+			}
+		}
+		if len(es) > 0 {
+			return es[len(es)-1], true
+		}
+		return nil, false
+	case "(net/http.Header).Get", "(net/http.Header).Values", "(net/http.Header).Set", "(net/http.Header).Add", "(net/http.Header).Del":
+		m, ok := args[0].(amap)
+		if !ok {
+			if _, isNil := args[0].(anil); isNil && (strings.HasSuffix(base, "Get") || strings.HasSuffix(base, "Values") || strings.HasSuffix(base, "Del")) {
+				if strings.HasSuffix(base, "Get") {
+					return astr(""), true
+				}
+				return anil{}, true
+			}
+			return nil, false
+		}
+		k, ok := keyOf(args[1]) // header names in the modelled code are canonical literals or opaque names
+		if !ok {
+			return nil, false
+		}
+		cur, present := m.m.vals[k]
+		switch {
+		case strings.HasSuffix(base, "Get"):
+			if sl, ok := cur.(avals); ok && present && len(sl.cells) > 0 {
+				return sl.cells[0].f[""], true
+			}
+			return astr(""), true
+		case strings.HasSuffix(base, "Values"):
+			if present {
+				return cur, true
+			}
+			return anil{}, true
+		case strings.HasSuffix(base, "Set"):
+			m.m.vals[k] = newVals([]aval{args[2]}, types.Typ[types.String])
+			m.m.keys[k] = args[1]
+			return atuple{}, true
+		case strings.HasSuffix(base, "Add"):
+			var cells []*aobj
+			if sl, ok := cur.(avals); ok && present {
+				cells = append(cells, sl.cells...)
+			}
+			cells = append(cells, newVals([]aval{args[2]}, types.Typ[types.String]).cells...)
+			m.m.vals[k] = avals{cells}
+			m.m.keys[k] = args[1]
+			return atuple{}, true
+		case strings.HasSuffix(base, "Del"):
+			delete(m.m.vals, k)
+			delete(m.m.keys, k)
+			return atuple{}, true
+		}
+	case "strconv.Itoa":
+		if v, ok := args[0].(aint); ok {
+			return astr(fmt.Sprintf("%d", int64(v))), true
+		}
+	}
+	if strings.HasPrefix(base, "sync/atomic.") {
+		p, ok := args[0].(aptr)
+		if !ok {
+			return nil, false
+		}
+		op := strings.TrimPrefix(base, "sync/atomic.")
+		switch {
+		case strings.HasPrefix(op, "Load"):
+			return e.load(p.obj, p.path), true
+		case strings.HasPrefix(op, "Store"):
+			e.store(p.obj, p.path, args[1])
+			return atuple{}, true
+		case strings.HasPrefix(op, "Add"):
+			nv := e.binop(token.ADD, e.load(p.obj, p.path), args[1])
+			e.store(p.obj, p.path, nv)
+			return nv, true
+		}
+	}
+	return nil, false
 }
